@@ -689,6 +689,14 @@ static void apiRun(int run, const Circuit &base, vg::Rng &r) {
     for (const Row &f : c.computeRows())
       fr.push(Value::object().set("x0", f.minX).set("x1", f.maxX).set("y0", f.minY).set("y1", f.maxY).set("o", vp::orientName(f.orientation)));
     e.set("free", fr);
+    // internal consistency as the object itself judges it
+    std::string chkWhat;
+    try {
+      c.check();
+    } catch (std::exception &ex) {
+      chkWhat = ex.what();
+    }
+    e.set("check", chkWhat);
     vt::emit(e);
   }
 }
